@@ -184,6 +184,29 @@ def c07_c(ctx: Ctx):
         elif isinstance(v, ast.Dict) and any(k is None for k in v.keys):
             out.append(ctx.viol(R, gb, a, f"the cursor's filter and the $exists pre-filter are merged into one mapping ({t[:70]}): when the filter constrains the grouping key itself "
                                 "the $exists entry replaces that constraint and jobs outside the selection are grouped"))
+        elif isinstance(v, ast.Call) and isinstance(v.func, ast.Name) and "_filter" in names_in(v):
+            # a helper builds the combined filter: any return that merges the two mappings into one is the violating shape
+            tg = [t for t in gb.nested_all if t.name == v.func.id] or [t for t in ctx.calls.resolve_call(gb, v)[0]]
+            merged = None
+            anded = False
+            for h in tg:
+                for r in [x for x in body_nodes(h) if isinstance(x, ast.Return) and x.value is not None]:
+                    rv = common.inline_at(ctx, h, r.value, r)
+                    for d in [x for x in ast.walk(rv) if isinstance(x, ast.Dict)]:
+                        if any(k is None for k in d.keys):
+                            merged = (h, r)
+                        if any(isinstance(k, ast.Constant) and k.value == "$and" for k in d.keys):
+                            anded = True
+                    if any(isinstance(x, ast.Call) and isinstance(x.func, ast.Attribute) and x.func.attr == "update" for x in ast.walk(h.node)):
+                        merged = merged or (h, r)
+            if merged:
+                h, r = merged
+                out.append(ctx.viol(R, h, r, f"helper {h.name} can merge the cursor's filter and the $exists pre-filter into one mapping ({canon(r.value)[:60]}): keys that name the same state point "
+                                    "key in different spellings ('a' / 'sp.a') collapse after prefixing and the cursor's own condition is lost, so jobs outside the selection are grouped"))
+            elif anded:
+                out.append(ctx.ok(R, gb, a, f"helper {v.func.id} combines the pre-filter with the cursor's filter by $and"))
+            else:
+                out.append(ctx.inc(R, gb, a, "unrecognised filter construction: " + t[:60]))
         elif "_filter" not in names_in(v):
             out.append(ctx.viol(R, gb, a, "the cursor's filter is dropped when the $exists pre-filter is built: jobs outside the selection are grouped"))
         else:
@@ -263,4 +286,30 @@ def c07_d(ctx: Ctx):
     return out
 
 
-RULES = [c07_a, c07_b, c07_c, c07_d]
+@rule("C07-e")
+def c07_e(ctx: Ctx):
+    """Sentinels and grouping: `default=None` means 'no default' (0 / '' / False are defaults); groupby input is sorted by the key; an empty command-line selection stays empty."""
+    from .lints import sentinel_discipline, groupby_sorted, coalesce_to_none
+    R = "C07-e"
+    out = sentinel_discipline(ctx, R, [
+        (CUR + ".groupby", "default", "a falsy default (0, '', False) is a default: jobs lacking the key must be labelled with it, not filtered out"),
+        (CUR + ".groupby", "key", "key=None means 'group by id'"),
+    ])
+    out += groupby_sorted(ctx, R, ("signac.project",))
+    if ctx.prog.modules.get("signac.__main__") is not None:
+        out += coalesce_to_none(ctx, R, ["signac.__main__:_find_with_filter_or_none", "signac.__main__:_find_with_filter"],
+                                "a filter that matches no job becomes 'no filter', so `signac diff/schema/sync -f ...` act on the whole project while `signac find` with the same tokens selects nothing")
+        f = ctx.prog.funcs.get("signac.__main__:_find_with_filter_or_none")
+        if f is not None:
+            rets = [r for r in body_nodes(f) if isinstance(r, ast.Return)]
+            for r in rets:
+                facts = common.facts_at(ctx, f, r, "n")
+                if r.value is not None and isinstance(r.value, ast.Call) and canon(r.value.func) == "_find_with_filter":
+                    if any(pol and "args.job_id or args.filter" in t for (t, pol) in facts) or (("args.job_id", True) in facts or ("args.filter", True) in facts):
+                        out.append(ctx.ok(R, f, r, "a selection is computed exactly when a job id or a filter was given"))
+                    else:
+                        out.append(ctx.inc(R, f, r, f"selection computed under {sorted(facts)}"))
+    return out
+
+
+RULES = [c07_a, c07_b, c07_c, c07_d, c07_e]
